@@ -1,6 +1,8 @@
 package consensus
 
 import (
+	"time"
+
 	"go.sia.tech/core/internal/vh"
 	"go.sia.tech/core/types"
 )
@@ -323,4 +325,49 @@ func VH_SEQ_V1SigTimelock() {
 		vh.ReachIf(t.Signatures[0].Timelock == h, "accepted-at-sig-bound")
 		vh.ReachIf(t.SiacoinInputs[0].UnlockConditions.Timelock == h, "accepted-at-uc-bound")
 	}
+}
+
+// issuance of a block: exactly the miner payouts and, on the Foundation's
+// schedule, the subsidy are created, all delayed by the maturity period
+func VH_SEQ_BlockIssuance() {
+	n, s := vhWorld("w")
+	n.BlockInterval = 10 * time.Minute
+	var b types.Block
+	b.MinerPayouts = make([]types.SiacoinOutput, 1)
+	vh.Fill("b", &b)
+	ms := NewMidState(s)
+	ms.ApplyBlock(b, V1BlockSupplement{})
+	bid := b.ID()
+	h := s.childHeight()
+	hf := s.Network.HardforkFoundation.Height
+	const perYear, perMonth = 52560, 4380
+	due := vh.And(s.FoundationSubsidyAddress != types.VoidAddress, h >= hf, (h-hf)%perMonth == 0)
+	want := types.Siacoins(30000).Mul64(perMonth)
+	if h == hf {
+		want = types.Siacoins(30000).Mul64(perYear)
+	}
+	payouts, subsidies, others := 0, 0, 0
+	for _, d := range ms.sces {
+		switch d.SiacoinElement.ID {
+		case bid.MinerOutputID(0):
+			payouts++
+			vh.Assert(vh.And(d.Created, !d.Spent, d.SiacoinElement.SiacoinOutput == b.MinerPayouts[0], d.SiacoinElement.MaturityHeight == s.MaturityHeight()), "miner payout element wrong")
+		case bid.FoundationOutputID():
+			subsidies++
+			vh.Assert(vh.And(d.Created, !d.Spent, d.SiacoinElement.SiacoinOutput.Address == s.FoundationSubsidyAddress, d.SiacoinElement.SiacoinOutput.Value == want,
+				d.SiacoinElement.MaturityHeight == s.MaturityHeight()), "foundation subsidy element wrong")
+		default:
+			others++
+		}
+	}
+	vh.Assert(vh.And(payouts == 1, others == 0), "block without transactions creates something other than its miner payout and the subsidy")
+	if due {
+		vh.Assert(subsidies == 1, "foundation subsidy due but not created")
+		vh.Reach("subsidy")
+	} else {
+		vh.Assert(subsidies == 0, "foundation subsidy created off schedule")
+		vh.Reach("no-subsidy")
+	}
+	vh.Assert(vh.And(len(ms.sfes) == 0, len(ms.fces) == 0, len(ms.v2fces) == 0, ms.siafundTaxRevenue == s.SiafundTaxRevenue), "empty block changes siafunds, contracts or the pool")
+	vh.Assert(vh.And(ms.cie.ID == bid, ms.cie.ChainIndex.Height == h, ms.cie.ChainIndex.ID == bid), "chain index element wrong")
 }
